@@ -24,7 +24,7 @@ Next == \/ /\ l = 0 /\ sh = 0
            /\ l' \in {sh + NSh * k : k \in 0..((N - sh) \div NSh)}
            /\ sh' = sh
 
-AllRules == {"C03.Frame",
+AllRules == {"C03.Frame", "C03.NoPanic", "C04.NoPanic", "C11.NoPanic",
              "C04.Accept", "C04.Reject", "C04.Effect", "C04.Ticks", "C03.Ticks",
              "C05.NoPanic", "C05.Atomic", "C05.Valid", "C05.ExitCode",
              "C11.Style", "C11.Deterministic", "C11.Accepted",
@@ -95,7 +95,7 @@ Holds(r, ev, PP, M) ==
       (* drift metric, never a verdict: does the real result equal the prediction of the tight text-level model? *)
       [] r = "X.Predicted" -> live /\ c.pre = c.predpre /\ c.pred.st # "unspec" =>
             IF c.pred.st = "ok" THEN o.code = 0 /\ o.post = c.pred.text ELSE o.code # 0
-      [] r = "C05.NoPanic" -> ev.panic = ""
+      [] r \in {"C05.NoPanic", "C03.NoPanic", "C04.NoPanic", "C11.NoPanic"} -> ev.panic = ""
       [] r = "C05.Atomic" -> live /\ o.code # 0 => o.post = c.pre /\ ~o.touched
       [] r = "C05.Valid" -> live /\ o.code = 0 => o.parsed_ok /\ ParseDoc(o.post).status # "Violating"
       [] r = "C05.ExitCode" -> live /\ (PP.status = "Violating" \/ c.nofile) => o.code # 0 /\ o.post = c.pre
